@@ -149,6 +149,7 @@ def rnumConv (O : Oracle) : RBase → Val → Option Val
   | .float, .str s => (match O.numStr .float s with | some (.flt r) => some (.flt r) | _ => .none)
   | .str, .str s => some (.str s)                            -- `regex.match` needs a str
   | _, _ => .none                                            -- bool, None, containers: ValueError / wrapped TypeError
+  -- (`toFlt` = none: an int beyond the float range; `validation_fn` turns the OverflowError into a ValueError, commit 4c191c6)
 
 /-- the "Registered types" branch for a restricted type: `serializer` = the base type, `deserializer` = the class
     (its exceptions are wrapped into ValueError); `is_value_of_type` is invisible here: an instance of the
